@@ -122,6 +122,7 @@ def parse(text):
                         rw['orig'] += s[len('//@<'):] + '\n'
                     elif s == '//@>':
                         # inline annotations are allowed inside a replacement: strip the delimiters
+                        rw['code'] = INLINE.sub('', rw['text'])
                         rw['text'] = INLINE.sub(lambda m_: m_.group(1), rw['text'])
                         reg.segs.append(rw)
                         rw = None
@@ -197,7 +198,7 @@ def check_rules(reg):
                 want = gen(seg['orig'], seg['rule'])
             except rules.NoMatch as e:
                 raise MirrorError('region %s: rule %s does not match original %r (%s)' % (reg.name, rule, seg['orig'], e))
-            got = texts(lex(strip_ghost(seg['text']))[0])
+            got = texts(lex(strip_ghost(seg.get('code', seg['text'])))[0])
             if texts(lex(want)[0]) != got:
                 raise MirrorError('region %s: rule %s: replacement differs from generated\n want: %s\n got:  %s' % (
                     reg.name, rule, ' '.join(texts(lex(want)[0])), ' '.join(got)))
